@@ -287,3 +287,163 @@ Proof.
   exists [[([72%N], 1%N)]; [([72%N], 2%N); ([74%N], 3%N)]; [([72%N], 4%N); ([74%N], 5%N)]], [74%N], [3%N; 5%N].
   split; [vm_compute; reflexivity | cbn; discriminate].
 Qed.
+
+(* ------------------------------------------------------------------ the plotted curves *)
+Lemma opt_all_some : forall (A : Type) (l : list (option A)) (r : list A),
+  opt_all l = Some r <-> l = map Some r.
+Proof.
+  intros A. induction l as [|x l IH]; intros r; cbn [opt_all].
+  - split; intro H.
+    + injection H as H. subst r. reflexivity.
+    + destruct r as [|a r]; [reflexivity|discriminate].
+  - destruct x as [a|].
+    + destruct (opt_all l) as [s|] eqn:E.
+      * split; intro H.
+        -- injection H as H. subst r. cbn [map]. f_equal. apply IH. reflexivity.
+        -- destruct r as [|b r]; [discriminate|]. cbn [map] in H. injection H as Hab Hl.
+           subst b. apply (IH r) in Hl. congruence.
+      * split; intro H; [discriminate|].
+        destruct r as [|b r]; [discriminate|]. cbn [map] in H. injection H as Hab Hl.
+        apply (IH r) in Hl. discriminate.
+    + split; intro H; [discriminate|]. destruct r as [|b r]; discriminate.
+Qed.
+
+Lemma opt_all_defined : forall (A : Type) (l : list (option A)),
+  opt_all l <> None <-> (forall x, In x l -> x <> None).
+Proof.
+  intros A. induction l as [|x l IH]; cbn [opt_all].
+  - split; [intros _ x []|intros _; discriminate].
+  - destruct x as [a|].
+    + destruct (opt_all l) as [s|] eqn:E.
+      * split; [|intros _; discriminate].
+        intros _ x [Hx|Hx]; [subst x; discriminate|].
+        apply IH; [discriminate|exact Hx].
+      * split; [intro H; contradiction|].
+        intros H. exfalso. assert (Hn : @None (list A) <> None); [|apply Hn; reflexivity].
+        apply IH. intros x Hx. apply H. right. exact Hx.
+    + split; [intro H; contradiction|].
+      intros H. exfalso. apply (H None); [left; reflexivity|reflexivity].
+Qed.
+
+Section PlotP.
+Context {T V : Type}.
+Variable readout_at : T -> list (str * V).
+
+Lemma curves_gen : forall (rows : list (list V)) (display : list str) (s : nat) (curves : list (str * list V)),
+  opt_all (map (fun jr : nat * str => option_map (pair (snd jr)) (column (fst jr) rows))
+               (combine (seq s (length display)) display)) = Some curves ->
+  map fst curves = display /\
+  forall j rad vs, nth_error curves j = Some (rad, vs) ->
+    nth_error display j = Some rad /\ column (s + j) rows = Some vs.
+Proof.
+  intros rows. induction display as [|a display IH]; intros s curves H.
+  - cbn in H. injection H as H. subst curves. split; [reflexivity|].
+    intros j rad vs Hj. destruct j; discriminate.
+  - cbn [length seq combine map opt_all fst snd] in H.
+    destruct (column s rows) as [c|] eqn:Ec; cbn [option_map] in H; [|discriminate].
+    match type of H with match ?X with _ => _ end = _ => destruct X as [cs|] eqn:Ecs end; [|discriminate].
+    injection H as H. subst curves.
+    destruct (IH (S s) cs Ecs) as [IH1 IH2].
+    split; [cbn [map fst]; rewrite IH1; reflexivity|].
+    intros j rad vs Hj. destruct j as [|j]; cbn [nth_error] in Hj |- *.
+    + injection Hj as Hr Hv. subst rad vs. rewrite Nat.add_0_r. split; [reflexivity|exact Ec].
+    + destruct (IH2 j rad vs Hj) as [Hd Hc]. split; [exact Hd|].
+      rewrite Nat.add_succ_r. exact Hc.
+Qed.
+
+Lemma rows_col : forall (display : list str) (times : list T) (rows : list (list V)) (vs : list V) (j : nat) (rad : str),
+  nth_error display j = Some rad ->
+  map (fun t => plot_row display (readout_at t)) times = map Some rows ->
+  map (fun row : list V => nth_error row j) rows = map Some vs ->
+  length vs = length times /\ map Some vs = map (fun t => d_get rad (readout_at t)) times.
+Proof.
+  intros display. induction times as [|t times IH]; intros rows vs j rad Hd Hr Hc.
+  - destruct rows as [|row rows]; [|discriminate]. destruct vs as [|v vs]; [|discriminate].
+    split; reflexivity.
+  - destruct rows as [|row rows]; [discriminate|]. destruct vs as [|v vs]; [discriminate|].
+    cbn [map] in Hr, Hc. injection Hr as Hrow Hr. injection Hc as Hv Hc.
+    destruct (IH rows vs j rad Hd Hr Hc) as [IH1 IH2].
+    cbn [length map]. split; [rewrite IH1; reflexivity|]. rewrite IH2. f_equal.
+    unfold plot_row in Hrow. apply opt_all_some in Hrow.
+    pose proof (map_nth_error (fun r : str => d_get r (readout_at t)) j display Hd) as H1.
+    pose proof (map_nth_error (@Some V) j row Hv) as H2.
+    rewrite Hrow in H1. rewrite H2 in H1. injection H1 as H1. exact H1.
+Qed.
+
+Lemma plot_curves_pointwise_s : forall (times : list T) (display : list str) (curves : list (str * list V)),
+  plot_curves times readout_at display = Some curves ->
+  map fst curves = display /\
+  forall j rad vs, nth_error curves j = Some (rad, vs) ->
+    length vs = length times /\ map Some vs = map (fun t => d_get rad (readout_at t)) times.
+Proof.
+  intros times display curves H. unfold plot_curves in H.
+  destruct (plot_rows times readout_at display) as [rows|] eqn:Er; [|discriminate].
+  destruct (curves_gen rows display 0 curves H) as [H1 H2].
+  split; [exact H1|]. intros j rad vs Hj.
+  destruct (H2 j rad vs Hj) as [Hd Hc]. cbn [Nat.add] in Hc.
+  unfold plot_rows in Er. apply opt_all_some in Er.
+  unfold column in Hc. apply opt_all_some in Hc.
+  exact (rows_col display times rows vs j rad Hd Er Hc).
+Qed.
+
+Lemma plot_rows_defined : forall (times : list T) (display : list str),
+  (forall t rad, In t times -> In rad display -> d_get rad (readout_at t) <> None) <->
+  plot_rows times readout_at display <> None.
+Proof.
+  intros times display. unfold plot_rows. rewrite opt_all_defined. split.
+  - intros H x Hx. apply in_map_iff in Hx. destruct Hx as [t [Ht Hin]]. subst x.
+    unfold plot_row. apply opt_all_defined. intros y Hy.
+    apply in_map_iff in Hy. destruct Hy as [rad [Hrad Hind]]. subst y. apply H; assumption.
+  - intros H t rad Ht Hrad.
+    assert (Hp : plot_row display (readout_at t) <> None).
+    { apply H. apply in_map_iff. exists t. split; [reflexivity|exact Ht]. }
+    unfold plot_row in Hp. rewrite opt_all_defined in Hp. apply Hp.
+    apply in_map_iff. exists rad. split; [reflexivity|exact Hrad].
+Qed.
+
+Lemma plot_rows_row_length : forall (times : list T) (display : list str) (rows : list (list V)) (row : list V),
+  plot_rows times readout_at display = Some rows -> In row rows -> length row = length display.
+Proof.
+  intros times display rows row Hr Hin. unfold plot_rows in Hr. apply opt_all_some in Hr.
+  assert (Hs : In (Some row) (map (fun t => plot_row display (readout_at t)) times)).
+  { rewrite Hr. apply in_map. exact Hin. }
+  apply in_map_iff in Hs. destruct Hs as [t [Ht _]].
+  unfold plot_row in Ht. apply opt_all_some in Ht.
+  apply (f_equal (@length (option V))) in Ht. rewrite !map_length in Ht. symmetry. exact Ht.
+Qed.
+
+Lemma plot_curves_defined_s : forall (times : list T) (display : list str),
+  (forall t rad, In t times -> In rad display -> d_get rad (readout_at t) <> None) <->
+  plot_curves times readout_at display <> None.
+Proof.
+  intros times display. rewrite plot_rows_defined. unfold plot_curves.
+  destruct (plot_rows times readout_at display) as [rows|] eqn:Er.
+  - split; [|intros _; discriminate]. intros _.
+    apply opt_all_defined. intros x Hx.
+    apply in_map_iff in Hx. destruct Hx as [[j rad] [Hx Hin]]. subst x. cbn [fst snd].
+    apply in_combine_l in Hin. apply in_seq in Hin.
+    assert (Hc : column j rows <> None).
+    { unfold column. apply opt_all_defined. intros y Hy.
+      apply in_map_iff in Hy. destruct Hy as [row [Hy Hrow]]. subst y.
+      apply nth_error_Some. rewrite (plot_rows_row_length times display rows row Er Hrow). lia. }
+    destruct (column j rows) as [c|]; [cbn; discriminate|contradiction].
+  - split; intro H; exfalso; apply H; reflexivity.
+Qed.
+End PlotP.
+
+Lemma plot_curves_pointwise : forall (T V : Type) (times : list T) (readout_at : T -> list (str * V)) (display : list str) curves,
+  plot_curves times readout_at display = Some curves ->
+  map fst curves = display /\
+  forall j rad vs, nth_error curves j = Some (rad, vs) ->
+    length vs = length times /\ map Some vs = map (fun t => d_get rad (readout_at t)) times.
+Proof. intros T V times readout_at display curves. apply plot_curves_pointwise_s. Qed.
+
+Lemma plot_curves_defined : forall (T V : Type) (times : list T) (readout_at : T -> list (str * V)) (display : list str),
+  (forall t rad, In t times -> In rad display -> d_get rad (readout_at t) <> None) <->
+  plot_curves times readout_at display <> None.
+Proof. intros T V times readout_at display. apply plot_curves_defined_s. Qed.
+
+Lemma plot_curves_example :
+  plot_curves [1%N; 2%N] (fun t => [([72%N], (t * 10)%N); ([74%N], (t * 10 + 1)%N)]) [[74%N]; [72%N]]
+  = Some [([74%N], [11%N; 21%N]); ([72%N], [10%N; 20%N])].
+Proof. vm_compute. reflexivity. Qed.
